@@ -20,6 +20,7 @@ All parameters are arbitrary reals (the geometry factor is *not* restricted to
 u₀ < 0 for Noh ("incident velocity (negative)"), ρ ≠ 0 where the equations divide by ρ.
 -/
 import EPV.Gen.NohD
+import EPV.Lemmas.Bridge.Noh
 import EPV.Gen.Noh2D
 import EPV.Gen.Noh2CogD
 import EPV.Spec.Euler1D
@@ -342,12 +343,11 @@ theorem noh_tree_post (p : Noh.P) (r t : ℝ) (h : r < |p.u0| * t * (p.gamma - 1
     AgreeNear (Noh.density p) (Noh.L0.density p) r t ∧ AgreeNear (Noh.velocity p) (Noh.L0.velocity p) r t
       ∧ AgreeNear (Noh.pressure p) (Noh.L0.pressure p) r t
       ∧ AgreeNear (Noh.specific_internal_energy p) (Noh.L0.specific_internal_energy p) r t := by
-  have hx : ∀ᶠ x in 𝓝 r, Noh.c0 p x t := by
-    simp only [epv_cond]; exact eventually_lt_nhds h
+  have hx : ∀ᶠ x in 𝓝 r, Noh.c0 p x t :=
+    (eventually_lt_nhds h).mono fun x hx => (EPV.Bridge.noh_c0_iff p x t).2 hx
   have hs : ∀ᶠ s in 𝓝 t, Noh.c0 p r s := by
-    simp only [epv_cond]
     have hc : ContinuousAt (fun s : ℝ => |p.u0| * s * (p.gamma - 1) / 2) t := by fun_prop
-    exact continuousAt_const.eventually_lt hc h
+    exact (continuousAt_const.eventually_lt hc h).mono fun s hs => (EPV.Bridge.noh_c0_iff p r s).2 hs
   exact ⟨agreeNear_of_cond (fun x s hc => by simp only [epv_tree, if_pos hc]) hx hs,
     agreeNear_of_cond (fun x s hc => by simp only [epv_tree, if_pos hc]) hx hs,
     agreeNear_of_cond (fun x s hc => by simp only [epv_tree, if_pos hc]) hx hs,
@@ -358,13 +358,11 @@ theorem noh_tree_pre (p : Noh.P) (r t : ℝ) (h : |p.u0| * t * (p.gamma - 1) / 2
     AgreeNear (Noh.density p) (Noh.L1.density p) r t ∧ AgreeNear (Noh.velocity p) (Noh.L1.velocity p) r t
       ∧ AgreeNear (Noh.pressure p) (Noh.L1.pressure p) r t
       ∧ AgreeNear (Noh.specific_internal_energy p) (Noh.L1.specific_internal_energy p) r t := by
-  have hx : ∀ᶠ x in 𝓝 r, ¬ Noh.c0 p x t := by
-    simp only [epv_cond, not_lt]
-    exact (eventually_gt_nhds h).mono fun x hx => hx.le
+  have hx : ∀ᶠ x in 𝓝 r, ¬ Noh.c0 p x t :=
+    (eventually_gt_nhds h).mono fun x hx => (EPV.Bridge.noh_not_c0_iff p x t).2 hx.le
   have hs : ∀ᶠ s in 𝓝 t, ¬ Noh.c0 p r s := by
-    simp only [epv_cond, not_lt]
     have hc : ContinuousAt (fun s : ℝ => |p.u0| * s * (p.gamma - 1) / 2) t := by fun_prop
-    exact (hc.eventually_lt continuousAt_const h).mono fun s hs => hs.le
+    exact (hc.eventually_lt continuousAt_const h).mono fun s hs => (EPV.Bridge.noh_not_c0_iff p r s).2 hs.le
   exact ⟨agreeNear_of_cond (c := fun x s => ¬ Noh.c0 p x s) (fun x s hc => by simp only [epv_tree, if_neg hc]) hx hs,
     agreeNear_of_cond (c := fun x s => ¬ Noh.c0 p x s) (fun x s hc => by simp only [epv_tree, if_neg hc]) hx hs,
     agreeNear_of_cond (c := fun x s => ¬ Noh.c0 p x s) (fun x s hc => by simp only [epv_tree, if_neg hc]) hx hs,
